@@ -50,6 +50,13 @@ def run(ctx):
                     nvec += 1
                     if nvec % 3001 == 7:
                         ctx.sample({"replay_case": rec})
+        # beyond the listed properties: Time_Display against spec/TimeDisplay.tla (laws of the mixed-radix decomposition checked by TLC on the
+        # boundary lattice; cases exported; disagreements of the library are reported as a note)
+        out = os.path.join(ctx.work, "h_time.out")
+        ctx.mc("MC_TimeDisplay", "MC_TimeDisplay.cfg", env={"OUT": out}, workers=4)
+        for line in open(out):
+            fh.write(json.dumps(vf.unescape_csv_json_line(line)) + "\n")
+            nvec += 1
     # ---- replay (deterministic helpers) + S-observations of the replayed Closest cases
     rtrace = os.path.join(ctx.work, "replay_trace.ndjson")
     rc, out, err = vf.run_exe([exe, "replay", vec, rtrace], timeout=1200)
@@ -63,6 +70,8 @@ def run(ctx):
         ctx.count(res["cases"], ["V%d" % i for i in range(nvec)])
         for f in res["fails"]:
             ctx.violation("replay " + f["key"], "%s disagrees with its element-wise definition (spec/Helpers.tla): %s" % (f["key"], json.dumps(f["detail"])[:400]), f)
+        if res.get("tdrift"):
+            ctx.drift("Time_Display (no listed property; spec/TimeDisplay.tla): the displayed fields differ from the exact mixed-radix decomposition in %d of the exported cases, e.g. %s" % (res["tdrift"], json.dumps(res["tdrifts"][:3])))
         if res.get("wdrift"):
             ctx.drift("Weighted_Average: the squared standard error for unequal weights differs from the ratio-estimator form of spec/Helpers.tla (WSE2) in %d cases, e.g. %s" % (res["wdrift"], json.dumps(res["wdrifts"][:2])))
         if res["drift"]:
